@@ -316,10 +316,15 @@ def case_of_line(line, kind):
 
 LEVEL_TEXT = ("Proof: Properties/C13.v states for ALL byte strings that the model of ComputeCRC (augmented-message loop, "
               "initial register 0x46af6449, 32 trailing zero steps, as written in tsutils.go) returns the big-endian bytes of "
-              "the textbook bit-serial CRC-32/MPEG-2 register, and that appending the result gives residue zero; proved by "
-              "GF(2)-linearity of the register step and induction over the bit list, no axioms. The model is tied to /repo by "
-              "running both on all strings of length 0..2, single-bit strings, random strings up to 4 KiB; the real code is also "
-              "compared directly with the extracted specification and with an independent table-driven CRC.")
+              "the textbook bit-serial CRC-32/MPEG-2 register, that appending the result gives residue zero and that no other "
+              "four-byte trailer does, that the table-driven formulation of the specification is the same function, and that every "
+              "single-bit and every burst error up to 32 bits changes the register; proved by GF(2)-linearity of the register step "
+              "and induction over the bit list, no axioms (coqchk in the thorough tier). The model is tied to /repo by running both "
+              "on all strings of length 0..2, one string of every length up to 1024, random strings up to 64 KiB, and EVERY "
+              "single-bit string (up to 64 bytes and selected lengths in quick, up to 1024 bytes in thorough) through a proved "
+              "linear-time table; the real code is also compared directly with the extracted specification (both formulations) "
+              "and with an independent table-driven CRC, and the sections produced by the real emitters (FilterPMTPacketsToPids, "
+              "SCTE35.UpdateData) are put through the receivers' check.")
 LEVEL_NOTE = ("Trusted: Coq kernel; Spec/Crc32.v as the reading of 'CRC-32/MPEG-2'; the transcription Model/Crc.v (checked by "
               "the correspondence); extraction and executor glue; Go uint32 semantics.")
 TECHNIQUE = "Coq proof (GF(2) linearity + induction on bits) + model/implementation correspondence, exhaustive on lengths 0..2"
